@@ -29,6 +29,8 @@ keyed by the protected construct, so a deleted guard is a violated instance (exi
      second time; sibling sub-builders are reset before another one is opened / used; end handlers reset every
      sub-builder before the object builder and commit afterwards; members owning a sub-builder are declared after the member
      owning its parent (destruction order when run() is left by an exception)      (found F3; fixed in /repo)
+ P1  fixed-position text parsers (parse_timestamp, string_to_ulong, XML attribute names): p[k] is read only where p[0..k-1] were
+     each tested by a condition that is false for NUL (NUL-terminated prefix discipline; calls reading from p[K] on count as reads)
  A1  abort / terminate / exit call sites are the frozen who-may-call list; decode_blob's abort() is unreachable by a checked
      argument (only behind the initial-value case of the compression selector; selector and payload assigned together; an
      emptiness test of the payload alone throws before the switch)
@@ -49,7 +51,7 @@ termination / hangs, equivalence of assert-on and NDEBUG builds, decompressor in
 """
 from ..c03_util import (classify_edges, upper_bound, lower_bound, equals, truthy, reaches_unchecked, describe, local_roots,
                         starts_for, definitions, elem_of, sig, var_name, cmp_parts, CursorFlow, UNCHECKED, helper_barriers,
-                        matching_conds, deep_roots, rooted_in, guarded, guarded_ip, resolve_local, single_init, edge_atoms)
+                        matching_conds, deep_roots, rooted_in, guarded, guarded_ip, resolve_local, single_init, edge_atoms, PrefixFlow, _PSTR_T)
 from ..excflow import Esc, catch_alls, handler_entry_block, must_pass
 from ..errdisc import guards
 from ..flow import path_search
@@ -2265,6 +2267,70 @@ def _region_escape(fn, start, region, barrier_nodes, pruned_edges):
     return None
 
 
+# ------------------------------------------------------------------------------------------------ P1 prefix discipline
+
+def _text_parser_file(fn):
+    if _SELFTEST[0]:
+        return True
+    f = fn.file
+    base = f.rsplit('/', 1)[-1]
+    if '/osmium/osm/' in f or f.endswith('/osmium/opl.hpp'):
+        return True
+    return '/io/detail/' in f and not base.startswith(('pbf', 'o5m', 'protobuf'))       # binary formats index sized buffers, not C strings
+
+
+def p1_prefix_discipline(fb, R):
+    rule = 'P1-fixed-position-read-after-prefix-validated'
+    seen = set()
+    for fn in fb.functions:
+        if not fn.has_cfg or not _text_parser_file(fn) or (fn.q, fn.pat) in seen:
+            continue
+        seen.add((fn.q, fn.pat))
+        bases = {}
+        for n in fn.all_nodes():
+            if n.get('k') == 'index':
+                b = fn.sn(n['base'])
+                k = fn.const_value(n['idx'])
+                if b is not None and b.get('k') == 'var' and b.get('vk') in ('local', 'param') and (b.get('t') or '') in _PSTR_T and k is not None and k >= 1:
+                    bases[b['d']] = b['name']
+        for d, name in bases.items():
+            ds = definitions(fn, d)
+            if len(ds) > 1 or (ds and any(p['d'] == d for p in fn.params)):
+                continue        # a moving pointer: indices are relative to changing positions (cursor rules apply instead)
+            # reads through a callee: the pointer behind a `const char**` parameter was taken as p and then advanced by a
+            # constant; a call that receives that parameter reads from p[K] on
+            extra = []
+            init = None
+            for n in fn.all_nodes():
+                if n.get('k') == 'decl':
+                    for v in n['vars']:
+                        if v['d'] == d and isinstance(v.get('init'), int):
+                            init = fn.sn(v['init'])
+            if init is not None and init.get('k') == 'unop' and init.get('op') == '*':
+                sv = fn.sn(init['sub'])
+                if sv is not None and sv.get('k') == 'var':
+                    for a in fn.all_nodes():
+                        if a.get('k') == 'assign' and a.get('op') == '+=' and fn.const_value(a['rhs']) is not None:
+                            l = fn.sn(a['lhs'])
+                            if l is not None and l.get('k') == 'unop' and l.get('op') == '*' and (fn.sn(l['sub']) or {}).get('d') == sv['d']:
+                                K = fn.const_value(a['rhs'])
+                                for c in fn.all_nodes():
+                                    if c.get('k') == 'call' and c.get('u') and fb.by_usr.get(c['u']) and fn.elem_dominates(a['id'], c['id']) \
+                                            and any(x is not None and (fn.sn(x) or {}).get('k') == 'var' and (fn.sn(x) or {}).get('d') == sv['d'] for x in c.get('args', [])):
+                                        extra.append((c['id'], K))
+            bad, reads = PrefixFlow(fn, d).run(extra)
+            if not reads:
+                continue
+            msg = ''
+            if bad:
+                nid, k, missing = sorted(bad, key=lambda t: (fn.nodes[t[0]].get('l', 0), t[1]))[0]
+                what = '%s[%d]' % (name, k) if fn.nodes[nid].get('k') != 'call' else 'the call of %s (reads from %s[%d] on)' % (fn.nodes[nid].get('q'), name, k)
+                msg = ('%s is read at %s although %s[%s] %s not been tested non-NUL on every path to it: a string that ends earlier (truncated '
+                       'input) is read past its terminator' % (what, fn.loc(nid), name, ','.join(str(i) for i in missing[:6]) + ('..' if len(missing) > 6 else ''),
+                                                               'have' if len(missing) > 1 else 'has'))
+            R.check(not bad, rule, '%s#fixed-position-reads:%s' % (fn.q, name), fn.site, msg)
+
+
 # ------------------------------------------------------------------------------------------------ G8 thrown types
 
 _G8_DIRS = ('/osmium/io/', '/osmium/builder/', '/osmium/osm/', '/osmium/memory/', '/osmium/util/', '/osmium/osm.hpp', '/osmium/opl.hpp')
@@ -2431,6 +2497,7 @@ def run(ctx):
         g9_utf8(fb, R)
         nul_layout(fb, R)
         ts_xml(fb, R)
+        p1_prefix_discipline(fb, R)
         a1_who_may_abort(fb, R)
         a1_abort_premise(fb, R)
     # instance floors: counted by hand on the pristine tree (see the rule table in the module docstring)
@@ -2460,6 +2527,7 @@ def run(ctx):
     R.expect('TS-end-closes-builders', 15)
     R.expect('TS-comment-obligation-closed', 1)
     R.expect('TS-comment-closer-once', 1)
+    R.expect('P1-fixed-position-read-after-prefix-validated', 3)   # parse_timestamp, string_to_ulong, XML k/v attribute names
     R.expect('A1-who-may-abort', 2)
     R.expect('A1-abort-unreachable-premise', 1)
     R.expect('TS-sub-builder-declared-after-parent', 7)  # tag list x 4 objects, way nodes, members, discussion
